@@ -1241,7 +1241,7 @@ void exec_op(const Op &op, bool in_cb, int cb_slot) {
         if (rc == 0 || (rc == -EEXIST && op.arg(1) > 0)) {
             // (the new bucket is in force even when registering its refill timer was refused by the old bucket)
             s.tb_rate = (uint32_t)std::max(0L, op.arg(1)); s.tb_burst = (uint64_t)std::max(0L, op.arg(2));
-            s.tb_set_time = R->now; s.tb_set_gseq = R->gseq; s.tb_charged_max = 0; s.tb_success_times.clear(); s.tb_refusal_armed = false;
+            s.tb_set_time = R->now; s.tb_set_gseq = R->gseq; s.tb_st_at_set = s.st; s.tb_enter_running_at_set = s.enter_running_from_rest; s.tb_charged_max = 0; s.tb_success_times.clear(); s.tb_refusal_armed = false;
         }
         return;
     }
